@@ -284,7 +284,12 @@ class Impl:
                     o.commit()
                 return ["unit"]
             if k == "update":
-                o.update()
+                # refreshing a contained element refreshes the stored object it belongs to: every other update enters there
+                child = o.get_referable("p") if len(o.submodel_element) else None
+                if child is not None and (o.id_short or "v0")[-1] in "02468":
+                    child.update()
+                else:
+                    o.update()
                 return ["unit"]
             if k == "discard":
                 st.discard(o, safe_delete=op[2])
